@@ -97,8 +97,14 @@ func c18run(intervalMs, failAt, quitAtMs int) string {
 	default:
 		end = time.Now()
 	}
-	return fmt.Sprintf("pings=%d closes=%d returned=%v afterquit=%d afterret=%d runms=%d",
-		len(tr.pingAt), tr.nclose, returned, afterQuit, afterRet, end.Sub(start).Milliseconds())
+	// how long the goroutine took to notice the end of the session (a loaded machine delays it; every further interval
+	// that passes meanwhile may produce one more tick that select can pick before it picks quit)
+	quitLag := int64(0)
+	if !quitTime.IsZero() && returned && retTime.After(quitTime) {
+		quitLag = retTime.Sub(quitTime).Milliseconds()
+	}
+	return fmt.Sprintf("pings=%d closes=%d returned=%v afterquit=%d afterret=%d runms=%d quitlag=%d",
+		len(tr.pingAt), tr.nclose, returned, afterQuit, afterRet, end.Sub(start).Milliseconds(), quitLag)
 }
 
 // deadConn: the stream header can be read, then the read side stays silent; the k-th keepalive write and every
